@@ -217,6 +217,9 @@ where
         },
         "timelimiter" => match v {
             0 => wrap(tl().layer(inner)),
+            // an unbounded timeout
+            2 => wrap(TimeLimiterLayer::builder().timeout_duration(Duration::MAX).build().layer(inner)),
+            3 => wrap(TimeLimiterLayer::builder().timeout_fn(|_r: &Req| Duration::MAX).cancel_running_future(false).build().layer(inner)),
             _ => wrap(TimeLimiterLayer::builder().timeout_fn(|_r: &Req| Duration::from_millis(1000)).build().layer(inner)),
         },
         "timelimiter_bg" => match v {
@@ -344,6 +347,11 @@ impl Adapter for StacksAd {
                 v.push(json!({"e":"settle"}));
             }
             let fail = rng.pct(35);
+            let rdy_err = fail && strict && cfg["retries"].as_u64().unwrap_or(0) == 1 && rng.pct(35);
+            if rdy_err {
+                // the inner service fails readiness when the layer re-polls it before its retry
+                v.push(json!({"e":"op","name":"script","ans":["err"]}));
+            }
             v.push(json!({"e":"completeall","out": if fail { "e1" } else { "ok" }}));
             v.push(json!({"e":"settle"}));
             if fail {
@@ -354,6 +362,10 @@ impl Adapter for StacksAd {
                     v.push(json!({"e":"completeall","out":"ok"}));
                     v.push(json!({"e":"settle"}));
                 }
+            }
+            if rdy_err {
+                // whatever is left of the script must not leak into the next request
+                v.push(json!({"e":"op","name":"script","ans":[]}));
             }
             if rng.pct(30) {
                 v.push(json!({"e":"op","name":"clone"}));
